@@ -1,4 +1,5 @@
 import FV.Proofs.Legal
+import Mathlib.Tactic.IntervalCases
 /-
   C09 — Legaliser constraint system admits exactly the legal floorplans.
 
@@ -8,9 +9,22 @@ import FV.Proofs.Legal
   positive rectangle sizes (`Pos`; GEKKO's variable bounds `lb = 0.1` on `w`, `h`) and a ratio limit `≥ 1`.
 
   `Legal τ` is the legality of a configuration spelled out geometrically; the no-overlap clause between
-  different modules allows an overlap *area* of at most `τ`.  The equations are satisfied by every
-  `Legal 0` configuration (`system_complete`) and only by `Legal τ` configurations with
-  `τ = 0.01 · min(die_width, die_height) / #modules`, the smoothing constant of the code (`system_sound`).
+  different modules allows an overlap *area* of at most `τ`.
+
+  **The characterisation is a sandwich, not an iff**:   `Legal 0  ⊆  Sat  ⊆  Legal τ`   with
+  `τ = 0.01 · min(die_width, die_height) / #modules`, the smoothing constant of the code.  Every `Legal 0`
+  configuration satisfies the equations (`system_complete`), and only `Legal τ` configurations do
+  (`system_sound`); both inclusions are strict (the exact acceptance set of a pair of rectangles is
+  `tX + tY ≥ 0 ∨ tX · tY ≤ τ²`, `interEq_iff` — e.g. a tiny corner overlap is accepted, a small box deep inside a
+  large one is rejected although its area is below `τ`).  This gap is what "up to the documented smoothing
+  tolerance" in the property means; every other clause is characterised exactly (`bounds_iff`, `attach_iff`,
+  `intra_iff_*`, `area_iff`, `fix_iff`).
+
+  The observation point `Equation.is_equation_met()` adds the annealed slack `ε` and the constant `1e-6`:
+  section "General slack" treats it (`Met c e t`): per-kind iff with every clause relaxed by `e + t`
+  (`bounds_met_iff`, `attach_met_iff`, `intra_met_iff`, `area_met_iff`, `inter_met_iff`, `fix_met_iff`),
+  monotonicity (`met_monotone`), `system_complete_slack : Legal 0 → AllMet e t` and
+  `system_sound_slack : AllMet e t → LegalS τ (e + t)`.  A system-level witness is in `namespace Witness`.
 -/
 namespace FV.C09
 open FV FV.Legal
@@ -429,6 +443,245 @@ theorem hard_area_of_rigid (c : Cfg) (m : Nat) (b : ModIn ℝ) (h : Rigid c m b)
         simp [hw, hh, hq]
   exact key _ (le_refl _)
 
+
+/-! ## General slack — what `Equation.is_equation_met()` computes
+
+`is_equation_met()` does not test the equation exactly: it adds the process-wide slack `ε = epsilon.evaluate()`
+(annealed to 0) and the constant `1e-6`.  `Met c e t q` is that test with `ε = e` and the constant abstracted to
+`t`; `Holds = Met · 0 0`.  Each kind of equation is met iff its clause holds relaxed by `δ = e + t`, more slack
+never un-meets an equation, and a configuration all of whose equations are reported met is legal up to `δ`
+(`LegalS τ δ`). -/
+
+/-- inside the die enlarged by `δ`. -/
+def InDieS (P : Params ℝ) (δ : ℝ) (q : Box ℝ) : Prop :=
+  -δ ≤ xmin q ∧ -δ ≤ ymin q ∧ xmax q ≤ P.dw + δ ∧ ymax q ≤ P.dh + δ
+
+/-- the ratio test relaxed by `δ`, in the units of the equation (`10 · thin`). -/
+def AspectS (r δ : ℝ) (q : Box ℝ) : Prop := thinV r 1 * 10 - δ ≤ thinV q.w q.h * 10
+
+/-- attached up to `δ`. -/
+def AttachedS (δ : ℝ) : Loc → Box ℝ → Box ℝ → Prop
+  | .north, t, b => |ymin b - ymax t| ≤ δ ∧ xmin t - δ ≤ xmin b ∧ xmax b ≤ xmax t + δ
+  | .south, t, b => |ymax b - ymin t| ≤ δ ∧ xmin t - δ ≤ xmin b ∧ xmax b ≤ xmax t + δ
+  | .east, t, b => |xmin b - xmax t| ≤ δ ∧ ymin t - δ ≤ ymin b ∧ ymax b ≤ ymax t + δ
+  | .west, t, b => |xmax b - xmin t| ≤ δ ∧ ymin t - δ ≤ ymin b ∧ ymax b ≤ ymax t + δ
+  | _, _, _ => True
+
+/-- neighbours along side `s` (stable order of the original coordinate) overlap by at most `δ`. -/
+def SideChainS (c : Cfg) (δ : ℝ) (m : Nat) (b : ModIn ℝ) (s : Loc) (key : Box ℝ → ℝ) (lo hi : Box ℝ → ℝ) : Prop :=
+  ∀ p ∈ pairs (sortBy (fun p => key p.2) (b.side s)), hi (c m p.1.1) ≤ lo (c m p.2.1) + δ
+
+def SidesChainS (c : Cfg) (δ : ℝ) (m : Nat) (b : ModIn ℝ) : Prop :=
+  SideChainS c δ m b .north (·.x) xmin xmax ∧ SideChainS c δ m b .south (·.x) xmin xmax ∧
+  SideChainS c δ m b .east (·.y) ymin ymax ∧ SideChainS c δ m b .west (·.y) ymin ymax
+
+/-- sizes and offsets from the trunk within `δ` of the original ones. -/
+def RigidS (c : Cfg) (δ : ℝ) (m : Nat) (b : ModIn ℝ) : Prop :=
+  (|(c m 0).w - b.trunk.w| ≤ δ ∧ |(c m 0).h - b.trunk.h| ≤ δ) ∧
+  ∀ i q, 1 ≤ i → b.branches[i - 1]? = some q →
+    |(c m i).w - q.w| ≤ δ ∧ |(c m i).h - q.h| ≤ δ ∧
+    |((c m i).x - (c m 0).x) - (q.x - b.trunk.x)| ≤ δ ∧ |((c m i).y - (c m 0).y) - (q.y - b.trunk.y)| ≤ δ
+
+def AtPlaceS (c : Cfg) (δ : ℝ) (m : Nat) (b : ModIn ℝ) : Prop :=
+  |(c m 0).x - b.trunk.x| ≤ δ ∧ |(c m 0).y - b.trunk.y| ≤ δ
+
+/-- overlap lengths of two boxes along `x` and `y` (0 when apart). -/
+noncomputable def ovX (p q : Box ℝ) : ℝ := max 0 (min (xmax p) (xmax q) - max (xmin p) (xmin q))
+noncomputable def ovY (p q : Box ℝ) : ℝ := max 0 (min (ymax p) (ymax q) - max (ymin p) (ymin q))
+
+/-- no overlap up to the smoothing constant `τ` and the slack `δ`: the boxes penetrate by at most `√δ` along
+    one axis, or `(ovX² - δ)(ovY² - δ) ≤ τ²`.  For `δ = 0` this is `ovArea ≤ τ`. -/
+def NoOverlapS (τ δ : ℝ) (p q : Box ℝ) : Prop :=
+  ovX p q ^ 2 ≤ δ ∨ ovY p q ^ 2 ≤ δ ∨ (ovX p q ^ 2 - δ) * (ovY p q ^ 2 - δ) ≤ τ ^ 2
+
+structure LegalModuleS (P : Params ℝ) (δ : ℝ) (c : Cfg) (m : Nat) (M : InModule ℝ) : Prop where
+  inDie : ∀ i < (split M.rects).c, InDieS P δ (c m i)
+  aspect : ∀ i < (split M.rects).c, AspectS P.r δ (c m i)
+  area : M.area - δ ≤ areaSum c m (split M.rects).c
+  attached : ∀ i s q, (i, s, q) ∈ (split M.rects).sided → AttachedS δ s (c m 0) (c m i)
+  ordered : SidesChainS c δ m (split M.rects)
+
+/-- legal up to the smoothing constant `τ` (overlap between modules) and the slack `δ` (every clause). -/
+structure LegalS (τ δ : ℝ) (P : Params ℝ) (mods : List (InModule ℝ)) (c : Cfg) : Prop where
+  modules : ∀ m M, mods[m]? = some M → LegalModuleS P δ c m M
+  hard : ∀ m M, mods[m]? = some M → M.hard = true → RigidS c δ m (split M.rects)
+  fixed : ∀ m M, mods[m]? = some M → M.fixed = true → AtPlaceS c δ m (split M.rects)
+  noOverlap : ∀ m n Mm Mn, m < n → mods[m]? = some Mm → mods[n]? = some Mn →
+    ∀ i < (split Mm.rects).c, ∀ j < (split Mn.rects).c, NoOverlapS τ δ (c m i) (c n j)
+
+/-- `is_equation_met()` is `True` for every generated equation, with slack `e` and constant `t`. -/
+def AllMet (P : Params ℝ) (mods : List (InModule ℝ)) (c : Cfg) (e t : ℝ) : Prop :=
+  ∃ U es, netlistToUtils mods = .ok U ∧ gen P U = .ok es ∧ ∀ q ∈ es, Met c e t q
+
+/-- more slack, or a larger constant, never turns a met equation into an unmet one. -/
+theorem met_monotone (c : Cfg) (e e' t t' : ℝ) (he : e ≤ e') (ht : t ≤ t') (h0 : 0 ≤ t) (q : Eqn ℝ)
+    (h : Met c e t q) : Met c e' t' q := met_mono c e e' t t' he ht h0 q h
+
+theorem near_iff (e t a T : ℝ) : Near e t a T ↔ |a - T| ≤ e + t := by
+  unfold Near; rw [abs_le]; constructor <;> rintro ⟨h1, h2⟩ <;> exact ⟨by linarith, by linarith⟩
+
+/-- Bounds + Shapes with slack. -/
+theorem bounds_met_iff (P : Params ℝ) (c : Cfg) (e t : ℝ) (m i : Nat) (hw : 0 < (c m i).w) (hh : 0 < (c m i).h) :
+    (∀ q ∈ rectEqs P m i, Met c e t q) ↔ InDieS P (e + t) (c m i) ∧ AspectS P.r (e + t) (c m i) := by
+  rw [rectEqs_met_iff P c e t m i hw hh]
+  unfold InDieS AspectS xmin xmax ymin ymax
+  constructor
+  · rintro ⟨⟨a, b, c', d⟩, f⟩; exact ⟨⟨by linarith, by linarith, by linarith, by linarith⟩, by linarith⟩
+  · rintro ⟨⟨a, b, c', d⟩, f⟩; exact ⟨⟨by linarith, by linarith, by linarith, by linarith⟩, by linarith⟩
+
+theorem attachRawS_iff (e t : ℝ) (s : Loc) (tr b : Box ℝ) : AttachRawS e t s tr b ↔ AttachedS (e + t) s tr b := by
+  cases s <;> simp only [AttachRawS, AttachedS, xmin, xmax, ymin, ymax, abs_le] <;>
+    (constructor <;> rintro ⟨⟨h1, h1'⟩, h2, h3⟩ <;>
+        exact ⟨⟨by linarith, by linarith⟩, by linarith, by linarith⟩)
+
+/-- Attach with slack. -/
+theorem attach_met_iff (c : Cfg) (e t : ℝ) (s : Loc) (m i : Nat) :
+    (∀ q ∈ attachEqs s m i, Met c e t q) ↔ AttachedS (e + t) s (c m 0) (c m i) := by
+  rw [attachEqs_met_iff, attachRawS_iff]
+
+theorem intraRawS_iff (c : Cfg) (e t : ℝ) (m : Nat) (b : ModIn ℝ) : IntraRawS c e t m b ↔ SidesChainS c (e + t) m b := by
+  unfold IntraRawS SidesChainS SideChainS coord xmin xmax ymin ymax
+  refine and_congr ?_ (and_congr ?_ (and_congr ?_ ?_)) <;>
+    (constructor <;> intro h p hp <;> have := h p hp <;> simp only at this ⊢ <;> linarith)
+
+/-- Intra with slack (neighbours along each side). -/
+theorem intra_met_iff (c : Cfg) (e t : ℝ) (m : Nat) (b : ModIn ℝ) :
+    (∀ q ∈ intraEqs m b, Met c e t q) ↔ SidesChainS c (e + t) m b := by
+  rw [← intraRawS_iff]; exact intraEqs_met_iff c e t m b
+
+/-- Area with slack. -/
+theorem area_met_iff (c : Cfg) (e t : ℝ) (m n : Nat) (a : ℝ) (nm : String) :
+    Met c e t ⟨"Area", nm, areaExpr m n, .ge, .cst a, false⟩ ↔ a - (e + t) ≤ areaSum c m n := by
+  rw [areaEq_met_iff]; constructor <;> intro h <;> linarith
+
+/-- the no-overlap equation with slack, exactly: both compared quantities shifted by `e + t`. -/
+theorem inter_met_iff (c : Cfg) (tau e t : ℝ) (m i n j : Nat) :
+    Met c e t (interEq tau m i n j) ↔ InterRawS tau e t (c m i) (c n j) := interEq_met_iff c tau e t m i n j
+
+theorem interRawS_sound (tau e t : ℝ) (hd : 0 ≤ e + t) (p q : Box ℝ) (h : InterRawS tau e t p q) :
+    NoOverlapS tau (e + t) p q := by
+  unfold NoOverlapS ovX ovY
+  by_cases hx : min (xmax p) (xmax q) - max (xmin p) (xmin q) ≤ 0
+  · left; rw [max_eq_left hx]; simpa using hd
+  by_cases hy : min (ymax p) (ymax q) - max (ymin p) (ymin q) ≤ 0
+  · right; left; rw [max_eq_left hy]; simpa using hd
+  push Not at hx hy
+  rw [max_eq_right hx.le, max_eq_right hy.le]
+  set ox := min (xmax p) (xmax q) - max (xmin p) (xmin q) with hox
+  set oy := min (ymax p) (ymax q) - max (ymin p) (ymin q) with hoy
+  have x1 : ox ≤ xmax p - xmin q := by have := min_le_left (xmax p) (xmax q); have := le_max_right (xmin p) (xmin q); linarith
+  have x2 : ox ≤ xmax q - xmin p := by have := min_le_right (xmax p) (xmax q); have := le_max_left (xmin p) (xmin q); linarith
+  have y1 : oy ≤ ymax p - ymin q := by have := min_le_left (ymax p) (ymax q); have := le_max_right (ymin p) (ymin q); linarith
+  have y2 : oy ≤ ymax q - ymin p := by have := min_le_right (ymax p) (ymax q); have := le_max_left (ymin p) (ymin q); linarith
+  have tx : ox ^ 2 ≤ -tX p q := by
+    have e' : -tX p q = (xmax p - xmin q) * (xmax q - xmin p) := by unfold tX xmax xmin; ring
+    rw [e']; nlinarith
+  have ty : oy ^ 2 ≤ -tY p q := by
+    have e' : -tY p q = (ymax p - ymin q) * (ymax q - ymin p) := by unfold tY ymax ymin; ring
+    rw [e']; nlinarith
+  by_cases hxd : ox ^ 2 ≤ e + t
+  · exact Or.inl hxd
+  by_cases hyd : oy ^ 2 ≤ e + t
+  · exact Or.inr (Or.inl hyd)
+  push Not at hxd hyd
+  right; right
+  have hA : 0 < -(tX p q + (e + t)) := by linarith
+  have hB : 0 < -(tY p q + (e + t)) := by linarith
+  unfold InterRawS at h
+  have hprod : (tX p q + (e + t)) * (tY p q + (e + t)) ≤ tau ^ 2 := by
+    rcases h with h | h
+    · nlinarith
+    · exact h
+  have : (ox ^ 2 - (e + t)) * (oy ^ 2 - (e + t)) ≤ (-(tX p q + (e + t))) * (-(tY p q + (e + t))) :=
+    mul_le_mul (by linarith) (by linarith) (by linarith) hA.le
+  nlinarith
+
+theorem fixRawS_iff (c : Cfg) (e t : ℝ) (m : Nat) (M : InModule ℝ) (hfh : M.fixed = true → M.hard = true) :
+    FixRawS c e t m M ↔
+      (M.hard = true → RigidS c (e + t) m (split M.rects)) ∧ (M.fixed = true → AtPlaceS c (e + t) m (split M.rects)) := by
+  unfold FixRawS RigidS AtPlaceS
+  simp only [near_iff]
+  constructor
+  · intro h
+    refine ⟨fun hh => ?_, fun hf => ((h (hfh hf)).1.1 hf)⟩
+    obtain ⟨⟨_, hw, hh'⟩, hbr⟩ := h hh
+    refine ⟨⟨hw, hh'⟩, fun i q hi hq => ?_⟩
+    obtain ⟨a, b, c', d⟩ := hbr i q hi hq
+    refine ⟨c', d, ?_, ?_⟩
+    · rwa [show (c m i).x - (c m 0).x - (q.x - (split M.rects).trunk.x) =
+        (c m i).x - (q.x - (split M.rects).trunk.x + (c m 0).x) by ring]
+    · rwa [show (c m i).y - (c m 0).y - (q.y - (split M.rects).trunk.y) =
+        (c m i).y - (q.y - (split M.rects).trunk.y + (c m 0).y) by ring]
+  · rintro ⟨h1, h2⟩ hh
+    obtain ⟨⟨hw, hh'⟩, hbr⟩ := h1 hh
+    refine ⟨⟨h2, hw, hh'⟩, fun i q hi hq => ?_⟩
+    obtain ⟨a, b, c', d⟩ := hbr i q hi hq
+    refine ⟨?_, ?_, a, b⟩
+    · rwa [show (c m i).x - (q.x - (split M.rects).trunk.x + (c m 0).x) =
+        (c m i).x - (c m 0).x - (q.x - (split M.rects).trunk.x) by ring]
+    · rwa [show (c m i).y - (q.y - (split M.rects).trunk.y + (c m 0).y) =
+        (c m i).y - (c m 0).y - (q.y - (split M.rects).trunk.y) by ring]
+
+/-- the Fix equations with slack. -/
+theorem fix_met_iff (c : Cfg) (e t : ℝ) (m : Nat) (M : InModule ℝ) (hfh : M.fixed = true → M.hard = true) :
+    (∀ i < (split M.rects).c, ∀ q ∈ fixRect m i
+        (if M.hard then some (xDict (split M.rects) M.fixed) else none)
+        (if M.hard then some (yDict (split M.rects) M.fixed) else none)
+        (if M.hard then some (wDict (split M.rects) M.fixed) else none)
+        (if M.hard then some (hDict (split M.rects) M.fixed) else none), Met c e t q) ↔
+      (M.hard = true → RigidS c (e + t) m (split M.rects)) ∧ (M.fixed = true → AtPlaceS c (e + t) m (split M.rects)) := by
+  rw [fixModule_met_iff, fixRawS_iff c e t m M hfh]
+
+/-- **Soundness of what `is_equation_met()` reports.**  If every generated equation is reported met with
+    slack `e ≥ 0` and constant `t ≥ 0` (the code: `t = 1e-6`), the configuration is legal up to `δ = e + t`
+    in every clause and up to the smoothing constant `τ` between modules. -/
+theorem system_sound_slack (P : Params ℝ) (mods : List (InModule ℝ)) (c : Cfg) (e t : ℝ)
+    (he : 0 ≤ e) (ht : 0 ≤ t) (hpos : Pos mods c) (h : AllMet P mods c e t) :
+    LegalS (tauV P mods.length) (e + t) P mods c := by
+  obtain ⟨U, es, hU, hg, hall⟩ := h
+  have hraw := (gen_met_iff P mods U es c e t hU hg hpos).mp hall
+  have hfh := utils_ok_fixed_hard mods U hU
+  refine { modules := fun m M hM => ?_, hard := ?_, fixed := ?_, noOverlap := ?_ }
+  · obtain ⟨⟨h1, h2, h3⟩, h4, _⟩ := hraw.1 m M hM
+    have hb := fun i hi => (bounds_met_iff P c e t m i (hpos m M hM i hi).1 (hpos m M hM i hi).2).mp
+      ((rectEqs_met_iff P c e t m i (hpos m M hM i hi).1 (hpos m M hM i hi).2).mpr (h1 i hi))
+    exact {
+      inDie := fun i hi => (hb i hi).1
+      aspect := fun i hi => (hb i hi).2
+      area := by linarith
+      attached := fun i s q hs => (attachRawS_iff e t s _ _).mp (h2 i s q hs)
+      ordered := (intraRawS_iff c e t m _).mp h3 }
+  · intro m M hM hh
+    exact ((fixRawS_iff c e t m M (hfh m M hM)).mp (hraw.1 m M hM).2.2).1 hh
+  · intro m M hM hf
+    exact ((fixRawS_iff c e t m M (hfh m M hM)).mp (hraw.1 m M hM).2.2).2 hf
+  · intro m n Mm Mn hmn hMm hMn i hi j hj
+    exact interRawS_sound _ e t (by linarith) _ _ (hraw.2 m n Mm Mn hmn hMm hMn i hi j hj)
+
+/-- **Completeness carries over to `is_equation_met()`**: a legal floorplan is reported met for every
+    slack `e ≥ 0` and constant `t ≥ 0`. -/
+theorem system_complete_slack (P : Params ℝ) (mods : List (InModule ℝ)) (c : Cfg) (e t : ℝ)
+    (he : 0 ≤ e) (ht : 0 ≤ t) (hr : 1 ≤ P.r) (hpos : Pos mods c) (hne : mods ≠ [])
+    (hfh : ∀ M ∈ mods, M.fixed = true → M.hard = true)
+    (h : Legal 0 P mods c) : AllMet P mods c e t := by
+  obtain ⟨U, es, hU, hg, hall⟩ := system_complete P mods c hr hpos hne hfh h
+  exact ⟨U, es, hU, hg, fun q hq => met_of_holds c e t he ht q (hall q hq)⟩
+
+/-- with no slack at all the relaxed no-overlap clause is the overlap-area bound. -/
+theorem noOverlapS_zero (τ : ℝ) (hτ : 0 ≤ τ) (p q : Box ℝ) (h : NoOverlapS τ 0 p q) : ovArea p q ≤ τ := by
+  unfold NoOverlapS at h
+  have hx : 0 ≤ ovX p q := le_max_left _ _
+  have hy : 0 ≤ ovY p q := le_max_left _ _
+  have e : ovArea p q = ovX p q * ovY p q := rfl
+  rw [e]
+  rcases h with h | h | h
+  · have : ovX p q = 0 := by nlinarith
+    rw [this, zero_mul]; exact hτ
+  · have : ovY p q = 0 := by nlinarith
+    rw [this, mul_zero]; exact hτ
+  · have : (ovX p q * ovY p q) ^ 2 ≤ τ ^ 2 := by nlinarith
+    exact (pow_le_pow_iff_left₀ (by positivity) hτ (by norm_num)).mp this
+
 /-! ### non-vacuity: a two-module floorplan (a fixed 4×2 trunk with a 2×2 north branch, and a soft 2×2) in a 10×10 die -/
 
 example : thinV (2:ℝ) 1 * 10 ≤ thinV 4 2 * 10 := (ratio_iff 4 2 2 (by norm_num) (by norm_num) (by norm_num)).mpr (by norm_num)
@@ -437,5 +690,177 @@ example : ovArea ⟨2, 1, 4, 2⟩ ⟨7, 1, 2, 2⟩ ≤ 0 := by
   unfold ovArea xmin xmax ymin ymax; norm_num
 example : Attached .north ⟨2, 1, 4, 2⟩ ⟨2, 3, 2, 2⟩ := by
   unfold Attached xmin xmax ymin ymax; norm_num
+
+
+/-! ### system-level witness (applies `input_satisfies`, `system_sound`, the slack theorems and a rejection)
+
+Die 20×20, ratio limit 3.  `M0` hard and movable: trunk (2,1,4,2) + north branch (2,3,2,2); `M1` soft: trunk
+(8,4,4,8) + two east branches listed out of order (the stable sort really swaps them, the Intra equation is not
+trivial); `M2` fixed: a single rectangle (15,15,2,2).  64 equations. -/
+namespace Witness
+
+noncomputable section
+def P : Params ℝ := ⟨20, 20, 3⟩
+/-- M0: hard (not fixed) trunk 4x2 + north branch 2x2;  M1: soft trunk 4x8 + two east branches;  M2: fixed single rect -/
+def M0 : InModule ℝ := ⟨[⟨⟨2,1,4,2⟩, .trunk⟩, ⟨⟨2,3,2,2⟩, .north⟩], true, false, 12⟩
+def M1 : InModule ℝ := ⟨[⟨⟨11,6,2,2⟩, .east⟩, ⟨⟨8,4,4,8⟩, .trunk⟩, ⟨⟨11,2,2,2⟩, .east⟩], false, false, 40⟩
+def M2 : InModule ℝ := ⟨[⟨⟨15,15,2,2⟩, .trunk⟩], true, true, 4⟩
+def mods : List (InModule ℝ) := [M0, M1, M2]
+
+theorem s0 : split M0.rects = { trunk := ⟨2,1,4,2⟩, N := [⟨2,3,2,2⟩] } := by
+  simp [split, M0, placeRect]
+theorem s1 : split M1.rects = { trunk := ⟨8,4,4,8⟩, E := [⟨11,6,2,2⟩, ⟨11,2,2,2⟩] } := by
+  simp [split, M1, placeRect]
+theorem s2 : split M2.rects = { trunk := ⟨15,15,2,2⟩ } := by
+  simp [split, M2, placeRect]
+
+theorem c00 : inputCfg mods 0 0 = ⟨2,1,4,2⟩ := by simp [inputCfg, mods, s0]
+theorem c01 : inputCfg mods 0 1 = ⟨2,3,2,2⟩ := by simp [inputCfg, mods, s0, ModIn.branches]
+theorem c10 : inputCfg mods 1 0 = ⟨8,4,4,8⟩ := by simp [inputCfg, mods, s1]
+theorem c11 : inputCfg mods 1 1 = ⟨11,6,2,2⟩ := by simp [inputCfg, mods, s1, ModIn.branches]
+theorem c12 : inputCfg mods 1 2 = ⟨11,2,2,2⟩ := by simp [inputCfg, mods, s1, ModIn.branches]
+theorem c20 : inputCfg mods 2 0 = ⟨15,15,2,2⟩ := by simp [inputCfg, mods, s2]
+
+theorem k0 : (split M0.rects).c = 2 := by simp [s0, ModIn.c, ModIn.branches]
+theorem k1 : (split M1.rects).c = 3 := by simp [s1, ModIn.c, ModIn.branches]
+theorem k2 : (split M2.rects).c = 1 := by simp [s2, ModIn.c, ModIn.branches]
+
+theorem hpos : Pos mods (inputCfg mods) := by
+  intro m M hM i hi
+  match m with
+  | 0 =>
+    obtain rfl : M0 = M := by simpa [mods] using hM
+    rw [k0] at hi; interval_cases i <;> simp [c00, c01]
+  | 1 =>
+    obtain rfl : M1 = M := by simpa [mods] using hM
+    rw [k1] at hi; interval_cases i <;> simp [c10, c11, c12]
+  | 2 =>
+    obtain rfl : M2 = M := by simpa [mods] using hM
+    rw [k2] at hi; interval_cases i <;> simp [c20]
+  | n+3 => simp [mods] at hM
+theorem sd0 : (split M0.rects).sided = [(1, Loc.north, ⟨2,3,2,2⟩)] := by simp [s0, ModIn.sided, idxFrom]
+theorem sd1 : (split M1.rects).sided = [(1, Loc.east, ⟨11,6,2,2⟩), (2, Loc.east, ⟨11,2,2,2⟩)] := by
+  simp [s1, ModIn.sided, idxFrom]
+theorem sd2 : (split M2.rects).sided = [] := by simp [s2, ModIn.sided, idxFrom]
+
+theorem lm0 : LegalModule P (inputCfg mods) 0 M0 where
+  inDie := by
+    intro i hi; rw [k0] at hi
+    interval_cases i <;> simp [c00, c01, InDie, xmin, xmax, ymin, ymax, P] <;> norm_num
+  aspect := by
+    intro i hi; rw [k0] at hi
+    interval_cases i <;> simp [c00, c01, AspectOK, P] <;> norm_num
+  area := by rw [k0]; simp [areaSum, c00, c01, M0]; norm_num
+  attached := by
+    intro i s q h; rw [sd0] at h
+    simp at h; obtain ⟨rfl, rfl, rfl⟩ := h
+    simp [Attached, c00, c01, xmin, xmax, ymin, ymax]; norm_num
+  ordered := by
+    simp [SidesOrdered, SideOrdered, ModIn.side, sd0, sortBy, insBy]
+
+theorem lm1 : LegalModule P (inputCfg mods) 1 M1 where
+  inDie := by
+    intro i hi; rw [k1] at hi
+    interval_cases i <;> simp [c10, c11, c12, InDie, xmin, xmax, ymin, ymax, P] <;> norm_num
+  aspect := by
+    intro i hi; rw [k1] at hi
+    interval_cases i <;> simp [c10, c11, c12, AspectOK, P] <;> norm_num
+  area := by rw [k1]; simp [areaSum, c10, c11, c12, M1]; norm_num
+  attached := by
+    intro i s q h; rw [sd1] at h
+    simp at h
+    rcases h with ⟨rfl, rfl, rfl⟩ | ⟨rfl, rfl, rfl⟩ <;>
+      simp [Attached, c10, c11, c12, xmin, xmax, ymin, ymax] <;> norm_num
+  ordered := by
+    simp [SidesOrdered, SideOrdered, ModIn.side, sd1, sortBy, insBy, ymin, ymax]
+    rw [if_pos (by norm_num)]; simp [c11, c12]; norm_num
+
+theorem lm2 : LegalModule P (inputCfg mods) 2 M2 where
+  inDie := by
+    intro i hi; rw [k2] at hi
+    interval_cases i <;> simp [c20, InDie, xmin, xmax, ymin, ymax, P] <;> norm_num
+  aspect := by
+    intro i hi; rw [k2] at hi
+    interval_cases i <;> simp [c20, AspectOK, P]
+  area := by rw [k2]; simp [areaSum, c20, M2]; norm_num
+  attached := by
+    intro i s q h; rw [sd2] at h; simp at h
+  ordered := by
+    simp [SidesOrdered, SideOrdered, ModIn.side, sd2, sortBy]
+theorem legalInput : LegalInput P mods where
+  modules := by
+    intro m M hM
+    match m with
+    | 0 => obtain rfl : M0 = M := by simpa [mods] using hM
+           exact lm0
+    | 1 => obtain rfl : M1 = M := by simpa [mods] using hM
+           exact lm1
+    | 2 => obtain rfl : M2 = M := by simpa [mods] using hM
+           exact lm2
+    | n+3 => simp [mods] at hM
+  noOverlap := by
+    intro m n Mm Mn hmn hMm hMn i hi j hj
+    have hn : n < 3 := by
+      by_contra h; rw [List.getElem?_eq_none (by simp [mods]; omega)] at hMn; cases hMn
+    interval_cases n <;> interval_cases m <;>
+      simp [mods] at hMm hMn <;> subst hMm hMn <;>
+      simp only [k0, k1, k2] at hi hj <;>
+      interval_cases i <;> interval_cases j <;>
+      simp [ovArea, c00, c01, c10, c11, c12, c20, xmin, xmax, ymin, ymax] <;> norm_num
+
+theorem hfh : ∀ M ∈ mods, M.fixed = true → M.hard = true := by
+  intro M hM; simp [mods] at hM; rcases hM with rfl | rfl | rfl <;> simp [M0, M1, M2]
+
+/-- input_satisfies applied to the concrete witness -/
+theorem W_input : AllEquationsHold P mods (inputCfg mods) :=
+  input_satisfies P mods (by norm_num [P]) hpos (by simp [mods]) hfh legalInput
+
+/-- system_sound applied to the concrete witness (hypothesis AllEquationsHold is satisfiable) -/
+theorem W_sound : Legal (tauV P mods.length) P mods (inputCfg mods) :=
+  system_sound P mods (inputCfg mods) (by norm_num [P]) (by norm_num [P]) (by norm_num [P]) hpos W_input
+
+theorem W_tau : tauV P mods.length = 1 / 15 := by
+  simp [tauV, mods, P, pyMin]; norm_num
+end
+
+noncomputable section
+/-- the legal input, with the FIXED module 2 moved by 1 in x (violates exactly the "fixed at original place" clause) -/
+def cBad : Cfg := fun m i => if m = 2 then ⟨16,15,2,2⟩ else inputCfg mods m i
+
+theorem hposBad : Pos mods cBad := by
+  intro m M hM i hi
+  by_cases h2 : m = 2
+  · subst h2; simp [cBad]
+  · have := hpos m M hM i hi
+    simpa [cBad, h2] using this
+
+theorem W_bad : ¬ AllEquationsHold P mods cBad := by
+  intro h
+  have hl := system_sound P mods cBad (by norm_num [P]) (by norm_num [P]) (by norm_num [P]) hposBad h
+  have := hl.fixed 2 M2 (by simp [mods]) (by simp [M2])
+  simp [AtPlace, s2, cBad] at this
+end
+noncomputable section
+/-- what `is_equation_met()` reports on the legal input, for the annealing slack 0.3 and the code's 1e-6. -/
+theorem W_met : AllMet P mods (inputCfg mods) (3 / 10) (1 / 1000000) :=
+  system_complete_slack P mods _ _ _ (by norm_num) (by norm_num) (by norm_num [P]) hpos (by simp [mods]) hfh
+    { modules := legalInput.modules, noOverlap := legalInput.noOverlap,
+      hard := (W_sound).hard, fixed := (W_sound).fixed }
+
+/-- … and `system_sound_slack` applied to it. -/
+theorem W_sound_slack : LegalS (tauV P mods.length) (3 / 10 + 1 / 1000000) P mods (inputCfg mods) :=
+  system_sound_slack P mods _ _ _ (by norm_num) (by norm_num) hpos W_met
+
+/-- moving the fixed module by 1 is still rejected by `is_equation_met()` at slack 0 (constant 1e-6). -/
+theorem W_bad_met : ¬ AllMet P mods cBad 0 (1 / 1000000) := by
+  intro h
+  have hl := system_sound_slack P mods cBad 0 (1 / 1000000) (by norm_num) (by norm_num) hposBad h
+  have := (hl.fixed 2 M2 (by simp [mods]) (by simp [M2])).1
+  simp [s2, cBad] at this
+  rw [abs_le] at this
+  norm_num at this
+end
+
+end Witness
 
 end FV.C09
